@@ -93,7 +93,53 @@ fn pick_red(r: &mut Rng, for_option: bool) -> Given {
     }
 }
 
+/// a valid value close to, but different from, another valid value (same parameter, other origin)
+fn near(r: &mut Rng, v: &str, lo: f64, hi: f64) -> Option<String> {
+    let x: f64 = v.parse().ok()?;
+    let d = *r.pick(&[0.04, -0.04, 0.01, -0.01, 0.004, 0.03]);
+    let y = ((x + d) * 1000.0).round() / 1000.0;
+    if y > lo && y <= hi && y != x {
+        Some(format!("{y}"))
+    } else {
+        None
+    }
+}
+
 pub fn gen_config(r: &mut Rng) -> Config {
+    let mut c = gen_config_base(r);
+    // option and metadata both valid: often make them close but different (a tie-break by distance must not happen)
+    if let (Given::Valid(o), Given::Valid(_)) = (&c.kexp_opt, &c.kexp_meta) {
+        if r.chance(1, 2) {
+            if let Some(m) = near(r, o, -1e-9, 1.0) {
+                c.kexp_meta = Given::Valid(m);
+            }
+        }
+    }
+    if let (Given::Valid(o), Given::Valid(_)) = (&c.area_opt, &c.area_meta) {
+        if r.chance(1, 2) {
+            if let Some(m) = near(r, o, 0.0011, 1e9) {
+                c.area_meta = Given::Valid(m);
+            }
+        }
+    }
+    for which in 0..2 {
+        let (o, m) = if which == 0 { (&c.red1_opt, &mut c.red1_meta) } else { (&c.red2_opt, &mut c.red2_meta) };
+        if let (Given::Valid(o), Given::Valid(_)) = (o, &*m) {
+            if r.chance(1, 2) {
+                if let Some(t) = parse_triple(o) {
+                    // differs in the third decimal of one component only
+                    let k = r.usize(3);
+                    let mut t2 = t;
+                    t2[k] = ((t[k] as f64 + 0.001) * 1000.0).round() as f32 / 1000.0;
+                    *m = Given::Valid(format!("{}, {}, {}", t2[0], t2[1], t2[2]));
+                }
+            }
+        }
+    }
+    c
+}
+
+fn gen_config_base(r: &mut Rng) -> Config {
     let ffile = if r.chance(1, 4) { Some(r.chance(1, 2)) } else { None };
     Config {
         area_opt: pick_area(r, true),
